@@ -22,7 +22,43 @@ PROFILES = {
 }
 
 
+def zerolen_program(k):
+    """fixed templates around arrays of length 0 (as local values): reads, writes and loops, each followed or
+    preceded by another operation that can fail, so that the order of the failures is visible"""
+    i, d = Var("i", USIZE), Var("d", U8)
+    r = Var("r", U8)
+    div = Assign("r", U8, [], Bin("/", Lit(U8, 10), d), "+")
+    pre = [LetMut("r", Lit(U8, 1))]
+    A = lambda et, e: (Var("a", TArr(et, 0)), ArrRep(e, 0))
+    T2 = TTup([U8, BOOL])
+    forms = []
+    a, lit = A(U8, d)
+    forms.append([Let(PVar("a"), lit), Let(PVar("v"), Index(a, i)), div])
+    forms.append([Let(PVar("a"), lit), Let(PVar("v"), Index(a, Lit(USIZE, 0))), div])
+    forms.append([Let(PVar("a"), lit), div, Let(PVar("v"), Index(a, Lit(USIZE, 0)))])
+    forms.append([Let(PVar("a"), lit), Let(PVar("v"), Index(a, Cast(Bin("/", Lit(U8, 10), d), USIZE))), div])
+    forms.append([LetMut("a", lit), Assign("a", a.ty, [("idx", i)], d), div])
+    forms.append([LetMut("a", lit), Assign("a", a.ty, [("idx", Lit(USIZE, 0))], d, "+"), div])
+    forms.append([LetMut("a", lit), div, Assign("a", a.ty, [("idx", Lit(USIZE, 0))], d)])
+    forms.append([For(PVar("e"), lit, [Assign("r", U8, [], Var("e", U8), "/")]), div])
+    forms.append([Let(PVar("a"), lit), For(PVar("e"), a, [Assign("r", U8, [], Bin("/", Lit(U8, 1), Lit(U8, 0)), "+")]), div])
+    forms.append([Let(PVar("a"), lit), ExprStmt(If(Bin(">", d, Lit(U8, 3)), Block([Let(PVar("v"), Index(a, Lit(USIZE, 0)))], None), None)), div])
+    a2, lit2 = A(T2, TupLit([d, Lit(BOOL, 1)]))
+    forms.append([Let(PVar("a"), lit2), Let(PVar("v"), TupGet(Index(a2, i), 0)), div])
+    forms.append([LetMut("a", lit2), Assign("a", a2.ty, [("idx", Lit(USIZE, 0)), ("tup", 0)], d), div])
+    a3, lit3 = A(TArr(U8, 2), ArrLit([d, d]))
+    forms.append([Let(PVar("a"), lit3), Let(PVar("v"), Index(Index(a3, Lit(USIZE, 0)), i)), div])
+    forms.append([LetMut("a", lit3), Assign("a", a3.ty, [("idx", i), ("idx", Lit(USIZE, 1))], d), div])
+    stmts = pre + forms[k % len(forms)]
+    return Program([FnDef("main", [("i", USIZE, False), ("d", U8, False)], U8, Block(stmts, r), pub=True)])
+
+
+ZEROLEN_FORMS = 14
+
+
 def make_program(profile, seed):
+    if profile == "zerolen":
+        return zerolen_program(seed)
     return gen.generate(seed, gen.Cfg(**PROFILES[profile]))
 
 
